@@ -164,7 +164,7 @@ impl Property for C02 {
         Ok(())
     }
     fn health(&self, st: &Stats, _quick: bool) -> Result<(), String> {
-        let total = st.evaluations.max(1);
+        let total = (st.labels.get("stage:random").copied().unwrap_or(0) + st.labels.get("stage:enumerated").copied().unwrap_or(0)).max(1);
         let acc = st.labels.get("outcome:accepted-by-some-type").copied().unwrap_or(0);
         let rej = st.labels.get("outcome:structural-reject").copied().unwrap_or(0);
         if acc * 5 < total {
